@@ -270,8 +270,12 @@ def renderGhostLine (g : GhostData) (ctx : ImplContext) : E TS := do
   let rightSide := quoteAction g.action none ctx
   let ghostIdent ← g.ghostIdent.getIdent
   match ghostIdent, ctx.kind.cls with
-  | .named ident, .into => return [i ident, colon] ++ rightSide ++ [comma]
-  | .unnamed _, .into => return rightSide ++ [comma]
+  | .named ident, .into =>
+    if ctx.hasPostInit then return [i "obj", dot] ++ ch ++ [i ident, eq] ++ rightSide ++ [semi]
+    else return [i ident, colon] ++ rightSide ++ [comma]
+  | .unnamed n, .into =>
+    if ctx.hasPostInit then return [i "obj", dot] ++ ch ++ (Member.unnamed n).toTS ++ [eq] ++ rightSide ++ [semi]
+    else return rightSide ++ [comma]
   | .named ident, .existing => return [i "other", dot] ++ ch ++ [i ident, eq] ++ rightSide ++ [semi]
   | .unnamed n, .existing => return [i "other", dot] ++ ch ++ (Member.unnamed n).toTS ++ [eq] ++ rightSide ++ [semi]
   | _, .from_ => panicAt "expand.rs:render_ghost_line:unreachable(7)"
